@@ -149,6 +149,7 @@ func TestC10(t *testing.T) {
 			}
 			var k c10Case
 			_ = json.Unmarshal(raw, &k)
+			replayHistory(p, evalC10)
 			c.Eval()
 			c.Report(pbt.DirectTB(t), k, evalC10(k))
 		})
@@ -156,6 +157,7 @@ func TestC10(t *testing.T) {
 	}
 	avoid := synAvoidFor(c)
 	c.SetRecheck(func(k any) []pbt.Violation { return evalC10(k.(c10Case)) })
+	c.SetPure()
 	c.ReplayKnown(t, func(raw json.RawMessage) []pbt.Violation {
 		var k c10Case
 		_ = json.Unmarshal(raw, &k)
@@ -271,11 +273,11 @@ func evalC09(k c09Case) []pbt.Violation {
 		os.RemoveAll(dir)
 		switch {
 		case err == nil && (r.Exit != 0 || string(after) != out):
-			return []pbt.Violation{{Signature: "file-mode-differs", Detail: fmt.Sprintf("`format -f` (exit %d) left %q in the file; formatting the same text gives %q", r.Exit, clip(string(after), 200), clip(out, 200))}}
+			return []pbt.Violation{{External: true, Signature: "file-mode-differs", Detail: fmt.Sprintf("`format -f` (exit %d) left %q in the file; formatting the same text gives %q", r.Exit, clip(string(after), 200), clip(out, 200))}}
 		case err != nil && string(after) != k.Text:
-			return []pbt.Violation{{Signature: "file-mode-touches-file-on-error", Detail: "the file was changed although the text has a syntax error"}}
+			return []pbt.Violation{{External: true, Signature: "file-mode-touches-file-on-error", Detail: "the file was changed although the text has a syntax error"}}
 		case err != nil && r.Exit == 0:
-			return []pbt.Violation{{Signature: "file-mode-exit0-on-error", Detail: "exit status 0 on a syntax error"}}
+			return []pbt.Violation{{External: true, Signature: "file-mode-exit0-on-error", Detail: "exit status 0 on a syntax error"}}
 		}
 	}
 	if k.Invalid != "" {
@@ -542,12 +544,14 @@ func TestC09(t *testing.T) {
 			}
 			var k c09Case
 			_ = json.Unmarshal(raw, &k)
+			replayHistory(p, evalC09)
 			run(pbt.DirectTB(t), k)
 		})
 		return
 	}
 	avoid := synAvoidFor(c)
 	c.SetRecheck(func(k any) []pbt.Violation { return evalC09(k.(c09Case)) })
+	c.SetPure()
 	c.ReplayKnown(t, func(raw json.RawMessage) []pbt.Violation {
 		var k c09Case
 		_ = json.Unmarshal(raw, &k)
